@@ -199,7 +199,7 @@ def close(a, b):
     return bool(np.all(np.isfinite(a))) and float(np.max(np.abs(a - b))) <= 1e-9 * s if a.size else True
 
 
-def final_checks(name, p):
+def final_checks(name, p, reassign=True):
     """the clauses of C07 evaluated on the object after a history; mutates p (reads psd).
     returns list of (clause, what)"""
     bad = []
@@ -231,7 +231,7 @@ def final_checks(name, p):
     if fl != len(psd):
         bad.append(('freq_len_psd', 'len(frequencies()) = %d but len(psd) = %d' % (fl, len(psd))))
     # re-assigning every attribute with its own value must not alter the result
-    for a in ATTRS + ['sides']:
+    for a in (ATTRS + ['sides'] if reassign else []):
         if a != 'sides' and not has_attr(name, a):
             continue
         try:
@@ -266,7 +266,7 @@ def conv_check(name, p, sides_arg, value):
 
 
 def run_history(name, did, ops, check_conv=True):
-    """replays ops on a new object; returns (object, trace, bad) where trace has one entry per op
+    """replays ops on a new object; returns (object, trace, bad) where bad = [(clause, what, number of operations after which it fails)] and trace has one entry per op
     (outcome, returned length, observation) and bad the clauses failing along the way / at the end"""
     p = construct(name, init_attrs(name, did))
     trace = [('init', -2, observe(p))]
@@ -274,13 +274,14 @@ def run_history(name, did, ops, check_conv=True):
     for op in ops:
         out, val = apply_op(p, op)
         trace.append((out, vlen(val) if op[0] in ('read', 'conv', 'freq') and out == 'ok' else -2, observe(p)))
+        i = len(trace) - 1
         if out == 'ok' and op[0] == 'conv' and check_conv:
-            bad += conv_check(name, p, op[1], val)
+            bad += [(c, w, i) for c, w in conv_check(name, p, op[1], val)]
         if out == 'ok' and op[0] == 'read':
             ref, _ = fresh_psd(name, cur_attrs(name, p), p.sides)
             if val is None or ref is None or not close(val, ref):
-                bad.append(('read_is_fresh', 'psd read inside the history differs from a fresh object'))
-    bad += final_checks(name, p)
+                bad.append(('read_is_fresh', 'psd read inside the history differs from a fresh object', i))
+    bad += [(c, w, len(ops)) for c, w in final_checks(name, p)]
     return p, trace, bad
 
 
@@ -295,6 +296,24 @@ def alphabet(name, did):
          ('set', 'sampling', 2.0), ('set', 'detrend', 'mean'), ('set', 'scale_by_freq', not sbf0),
          ('set', 'sides', 'twosided'), ('set', 'sides', 'centerdc'), ('set', 'sides', 'onesided'),
          ('call',), ('read',), ('conv', 'centerdc'), ('conv', 'twosided'), ('freq', None)]
+    if has_attr(name, 'window'):
+        A.append(('set', 'window', 'bartlett'))
+    if has_attr(name, 'lag'):
+        A.append(('set', 'lag', 5))
+    if has_attr(name, 'ar_order'):
+        A.append(('set', 'ar_order', {'pma': 9, 'pmusic': 5, 'pev': 5}.get(name, 2)))
+        A.append(('set', 'ma_order', 3 if name != 'pma' else 2))
+    return A
+
+
+def core_alphabet(name, did):
+    """a smaller alphabet for deeper exhaustive histories"""
+    real = did.startswith('r')
+    flip = ('c0' if real else 'r0')
+    kw, _ = ctor_kwargs(name, {})
+    sbf0 = kw.get('scale_by_freq')
+    A = [('set', 'data', flip), ('set', 'NFFT', 33), ('set', 'sampling', 2.0), ('set', 'scale_by_freq', not sbf0),
+         ('set', 'sides', 'twosided'), ('set', 'sides', 'centerdc'), ('call',), ('read',), ('conv', 'centerdc')]
     if has_attr(name, 'window'):
         A.append(('set', 'window', 'bartlett'))
     if has_attr(name, 'lag'):
